@@ -33,12 +33,12 @@ def Z(profile, flav="asan", w=1, scen="zoo", mode="batch"):
 PROPS = {
     "C01": dict(parts=[Z("C01", w=4), Z("C10", scen="sig"), Z("C11", scen="wait"), Z("C20", scen="inot")], quick=24000, thorough=1200000, nontrivial=["unreg_in_cb"], level="exploration"),
     "C02": dict(parts=[Z("C02")], quick=24000, thorough=1200000, nontrivial=["fd_cb", "block"], level="exploration"),
-    "C03": dict(parts=[Z("C03")], quick=24000, thorough=1200000, nontrivial=["fd_cb"], level="exploration"),
+    "C03": dict(parts=[Z("C03", w=3), Z("C01", w=1)], quick=24000, thorough=1200000, nontrivial=["fd_cb"], level="exploration"),
     "C04": dict(parts=[Z("C04", w=4), Z("C05", scen="timers")], quick=24000, thorough=1200000, nontrivial=["timer_fired", "block"], level="exploration"),
     "C05": dict(parts=[Z("C05", scen="timers", w=3), Z("C04")], quick=2500, thorough=120000, nontrivial=["timer_many"], level="exploration"),
     "C06": dict(parts=[Z("C06")], quick=24000, thorough=1200000, nontrivial=["task_ran"], level="exploration"),
     "C07": dict(parts=[Z("C07", w=6), Z("C13", scen="pool", w=2), Z("C19", scen="popen", w=2), Z("C11", scen="wait"), Z("C10", scen="sig"),
-                       Z("C20", scen="inot"), Z("C17", scen="pump")], quick=24000, thorough=1200000, nontrivial=["block"], level="exploration"),
+                       Z("C20", scen="inot"), Z("C17", scen="pump"), Z("C05", scen="timers")], quick=24000, thorough=1200000, nontrivial=["block"], level="exploration"),
     "C08": dict(parts=[Z("C08")], quick=20000, thorough=1000000, nontrivial=["post_cross", "event_cb"], level="exploration"),
     "C09": dict(parts=[Z("C09")], quick=20000, thorough=1000000, nontrivial=["raw_cb"], level="exploration"),
     "C10": dict(parts=[Z("C10", scen="sig")], quick=20000, thorough=1000000, nontrivial=["sig_cb"], level="exploration"),
